@@ -16,3 +16,19 @@ func c19Check() *libCheck {
 		},
 	}
 }
+
+func c12Check() *libCheck {
+	return &libCheck{
+		Prop: "C12", Kind: "c12", Level: "exploration",
+		QuickRuns: 200000, ThoroughRuns: 10000000, PerBatch: 12500,
+		Rule: "each run = one seeded history of 1..10 Feed calls by up to 5 parties (named files, unnamed patches, named patches, repeated names with equal and different content, names shaped like renamed siblings, markers occurring 0..n times, decoy markers, patches for absent points, a leading unnamed patch) on a fresh real FileManager followed by BuildResponse, with the replacer's map order permuted by the seam; checked against the relational reference model; non-trivial = at least 2 submitted items; distinct by the full history",
+		Assumptions: []string{
+			"histories outside the domain the statement defines (markers inside patch text, named patches aimed at a name in conflict or not yet existing) are generated rarely and not judged",
+			"a clean batch is evidence, not proof",
+		},
+		RealStub: map[string]interface{}{
+			"real": []string{"generator.FileManager.Feed", "FileManager.BuildResponse", "insertionPointReplacer"},
+			"stub": []string{"the submitting parties (scripted histories)", "map iteration order in insertionPointReplacer.Replace (permuted by the seam)"},
+		},
+	}
+}
